@@ -17,7 +17,7 @@ RULE = ('each case = (operation, timeout grid point, stall kind, await point): a
         'non-trivial / distinct = distinct (operation, await point index, stall kind, grid point) tuples in which the stall actually began inside a call')
 ASSUMPTIONS = ['bound: elapsed virtual time since the stall began <= 6*(R+ + T+) + timeout_s+ + slack, with R, T the effective values (DESIGN C11)',
                'auth_timeout_s=None is excluded (documented "wait forever")', 'every transport call costs a small positive virtual time; empty reads at EOF cost idle_cost']
-EXPECT_PROBES = {'all': ['stall_began', 'filler_foreign', 'filler_unexpected', 'filler_endless', 'c11_trickle', 'c11_eof', 'c11_in_connect', 'c11_timeout_raised', 'c11_auth_wait', 'c11_mid_packet', 'c11_big_payload_stall']}
+EXPECT_PROBES = {'all': ['stall_began', 'filler_foreign', 'filler_unexpected', 'filler_endless', 'c11_trickle', 'c11_eof', 'c11_in_connect', 'c11_timeout_raised', 'c11_auth_wait', 'c11_mid_packet', 'c11_big_payload_stall', 'filler_wrte_after_host_close']}
 OWN = ('returned-wrong-data', 'wrong-exception', 'bound-exceeded', 'hang', 'no-termination', 'timeout-order', 'fabricated-data')
 KINDS = ['shell', 'exec_out', 'streaming_shell', 'root', 'reboot', 'list', 'stat', 'pull', 'push']
 STALLS = ['silence', 'eof', 'trickle', 'foreign', 'unexpected', 'endless']
@@ -111,6 +111,10 @@ def generate(seed, tier):
         op['tt'] = g.pick([0.3, 2.0])
         op.pop('to', None)
     scn = {'api': g.pick(['sync', 'async']), 'transport': 'mem', 'device': d, 'config': cfg, 'actors': [[conn, op]], 'object': {'banner': 'simhost', 'default_tt': default_tt}}
+    if g.chance(0.15) and stall['kind'] in ('silence', 'eof', 'foreign', 'unexpected') and not stall.get('mid_packet') and all(op.get(k) is None or op[k] > 0 for k in ('tt', 'rt', 'to')):      # select() rejects negative timeouts: outside the TCP transport's contract
+        # the same stalls seen through the real TCP transports (select/recv, asyncio streams): end-of-stream is a FIN there
+        scn['transport'] = 'tcp'
+        scn['tcp'] = {'sndbuf': 65536, 'drain': 100000, 'drain_every': 1e-5, 'high_water': 65536}
     return {'seed': seed, 'scn': scn, 'stall': stall}
 
 
@@ -250,7 +254,7 @@ def evaluate(case, tapes=None):
             else:
                 pr['c11_timeout_raised'] = 1
         # effective timeout ordering, observed on the transport calls of the stream operation
-        if i == 1 and not (vop['op'] == 'pull' and vop.get('cb')):
+        if i == 1 and not (vop['op'] == 'pull' and vop.get('cb')) and scn.get('transport', 'mem') == 'mem':      # over TCP the log holds socket-level calls
             for c in run.link.calls:
                 if c[0] >= rec['calls0'] and c[0] < rec.get('calls1', 1 << 60):
                     if c[4] is None or abs(c[4] - T) > 1e-12:
